@@ -119,6 +119,14 @@ def check(prop, ev, bounds=None, cvc5_cross=False):
             inconc.append(f"stdlib closure function drives its closure outside the four Runner methods: {badusers}")
     except Unencodable as e:
         inconc.append(f"unencodable (Runner): {e}")
+    if prop in ("C06", "C07"):
+        try:
+            import driverlemmas
+            dobls, dfns = driverlemmas.obligations()
+            obls = obls + dobls
+            fns = sorted(set(fns) | set(dfns))
+        except Unencodable as e:
+            inconc.append(f"unencodable (stdlib closure drivers): {e}")
     if prop == "C17":
         try:
             import stdlemmas
@@ -189,7 +197,10 @@ def check(prop, ev, bounds=None, cvc5_cross=False):
         lab = child_label(S.types.struct_fields(node if node not in ("AssignVariant",) else "Variant", o.ex.hint_mod) or [])
         res = None
         try:
-            if role.endswith(":operand-constants-are-read-in-the-state-of-evaluation"):
+            if ":stdlib::" in role and not role.startswith("C17:"):
+                import driverlemmas
+                res = [(a, b, {}) for a, b in driverlemmas.battery()]
+            elif role.endswith(":operand-constants-are-read-in-the-state-of-evaluation"):
                 res = [(a, b, {}) for a, b in stateflowlemmas.battery()]
             elif role.endswith(":ok-type-includes-default-kind"):
                 res = [(a, b, {}) for a, b in typeinfolemmas.battery()]
